@@ -322,8 +322,24 @@ def run_check(pid, modname, tier='quick', seed=0, only=None, replay=None, jobs=N
     jobs = jobs or min(16, len(tasks), os.cpu_count() or 1)
     if jobs > 1 and len(tasks) > 1:
         ctx = multiprocessing.get_context('fork')
-        with ctx.Pool(jobs) as pool:
-            results = pool.map(_run_task, tasks, chunksize=1)
+        limit = int(os.environ.get('PVC_TASK_LIMIT_S', 900 if tier == 'quick' else 5400))
+        pool = ctx.Pool(jobs)
+        try:
+            pending = [(t, pool.apply_async(_run_task, (t,))) for t in tasks]
+            results = []
+            t_end = time.time() + limit
+            for t, p_ in pending:
+                try:
+                    results.append(p_.get(timeout=max(1.0, t_end - time.time())))
+                except multiprocessing.TimeoutError:
+                    # a task that does not finish is undecided, never a violation
+                    results.append({'task': t[1], 'obs': [{'name': t[1] + '/task-time-limit', 'functions': [], 'class': '-', 'status': 'undecided',
+                                                         'backend': 'engine', 'solver_s': float(limit), 'detail': 'task exceeded the time limit of %d s' % limit,
+                                                         'witness': None, 'residual': None}],
+                                    'bounded': [], 'functions': [], 'assumptions': [], 'fault': None, 'wall_s': float(limit), 'z3': {}})
+        finally:
+            pool.terminate()
+            pool.join()
     else:
         results = [_run_task(t) for t in tasks]
     return finish(pid, tier, seed, results, meta, time.time() - t0, replay is not None, only)
